@@ -106,10 +106,14 @@ func (s *Syncer) readDBI(txn *lmdb.Txn, dbiName, origDBIName string, rawValues b
 	}
 	l.WithField("entries", stat.Entries).Debug("Reading DBI")
 
-	// Always enable txn.RawRead so that the slices point directly into the
+	// Enable txn.RawRead so that the slices point directly into the
 	// LMDB pages, since we will copy the values into the snapshot.DBI anyway.
+	// Not for raw application values: those can be zero-length, and a raw read
+	// touches the byte at the value's address, which for an empty value in the
+	// last node of the last page lies just past the end of the data file
+	// (SIGBUS). Values with a header are never empty.
 	restoreRawRead := txn.RawRead
-	txn.RawRead = true
+	txn.RawRead = !rawValues
 	defer func() {
 		txn.RawRead = restoreRawRead
 	}()
